@@ -1,6 +1,6 @@
-// C20 (unit C2: t-digest, Bloom filter, density) — images keep the documented cross-language layout; old images stay readable.
+// C10 (unit C2: t-digest, Bloom filter, density) — images keep the documented cross-language layout; old images stay readable.
 // See vf/c10_monitor.hpp for the case space, vf/c10_decode.hpp for the independent decoders.  Compiled with -fno-access-control.
-#define C20_C2
+#define C10_C2
 #include "vf/c10_fam_c.hpp"
 #include "vf/c10_monitor.hpp"
 
